@@ -335,6 +335,10 @@ def run(ctx, eng):
     c20.check_push_leniency(ctx, eng)
     ctx.assume('ENABLE_PUSH timing over histories beyond "the acknowledged '
                'value is the one read" is not decided')
+    cm.include(ctx, eng, 'C09', {'ARITH.id-high', 'ORD.id-bookkeeping'},
+               'a promised id is held to the same rules on both ends: no '
+               'larger than 2**31-1 whether we chose it or read it off the '
+               'wire (the promised-id word is not masked by the parser)')
     cm.include(ctx, eng, 'C11', {'FLOW.queue', 'FLOW.ack-source'},
                'the client allows push = the ENABLE_PUSH value the peer has '
                'acknowledged: one queued value per update, one popped per '
